@@ -11,6 +11,17 @@
 (*                       else:          self.last = last + 1                   *)
 (*   __call__          leaving the with block, returning       Release         *)
 (*                                                                            *)
+(* Design choice ReadOutsideLock.  The property does not say where the clock   *)
+(* is read, only that each call takes ONE reading and is never behind it.      *)
+(*   FALSE  the reading is taken under the lock (the pinned code):             *)
+(*          Acquire, ReadClock(v) [+ snapshot of last], Compute, Release       *)
+(*   TRUE   the reading is taken before the lock is requested:                 *)
+(*          ReadClock(v), Acquire [+ snapshot of last], Compute, Release       *)
+(* Both designs satisfy the invariants below (TLC checks both); a probe on the *)
+(* real code decides which one it is replayed / trace-validated against.       *)
+(* In both designs `last` is read and written only by the lock holder, and a   *)
+(* call reads the clock exactly once.                                          *)
+(*                                                                            *)
 (* Configuration.  The constructor options only govern LOGGING: warn_on_drift  *)
 (* switches the "clock skew" warning off, warning_threshold / warning_interval *)
 (* (seconds) rate-limit it.  conf = [warn, eager]: eager stands for threshold  *)
@@ -28,7 +39,8 @@ EXTENDS Integers, Sequences, FiniteSets, TLC
 CONSTANTS N,    \* threads 1..N
           K,    \* calls per thread
           M,    \* clock values 0..M
-          Confs \* generator configurations: subset of [warn : BOOLEAN, eager : BOOLEAN]
+          Confs, \* generator configurations: subset of [warn : BOOLEAN, eager : BOOLEAN]
+          ReadOutsideLock   \* design choice, see above
 
 Threads == 1..N
 AllConfs == [warn : BOOLEAN, eager : BOOLEAN]
@@ -41,7 +53,7 @@ VARIABLES conf,   \* the generator's configuration (fixed by Init)
           warnings, \* number of warnings logged
           lock,   \* 0 = free, else the owner
           last,   \* self.last
-          pc,     \* per thread: "idle", "locked", "read", "computed"
+          pc,     \* per thread: "idle", "clock" (reading taken, lock not yet held), "locked", "read", "computed"
           now,    \* per thread: clock value read by the current call
           snap,   \* per thread: value of self.last passed to _next_timestamp
           ret,    \* per thread: value the current / last call returns
@@ -67,19 +79,29 @@ Init ==
     /\ hist = <<>>
     /\ act = A("Init", 0, 0)
 
+\* the thread is at the point where it asks for the lock
+WantsLock(t) == IF ReadOutsideLock THEN pc[t] = "clock" ELSE pc[t] = "idle" /\ calls[t] < K
+
 Acquire(t) ==
-    /\ pc[t] = "idle" /\ calls[t] < K
+    /\ WantsLock(t)
     /\ lock = 0                                  \* otherwise the thread blocks
     /\ lock' = t
-    /\ pc' = [pc EXCEPT ![t] = "locked"]
+    /\ IF ReadOutsideLock
+       THEN \* the reading is already there; `last` is looked at now, under the lock
+            pc' = [pc EXCEPT ![t] = "read"] /\ snap' = [snap EXCEPT ![t] = last]
+       ELSE pc' = [pc EXCEPT ![t] = "locked"] /\ UNCHANGED snap
     /\ act' = A("Acquire", t, 0)
-    /\ UNCHANGED <<conf, lastWarn, warnings, last, now, snap, ret, calls, hist>>
+    /\ UNCHANGED <<conf, lastWarn, warnings, last, now, ret, calls, hist>>
 
 ReadClock(t, v) ==
-    /\ pc[t] = "locked"
     /\ now' = [now EXCEPT ![t] = v]
-    /\ snap' = [snap EXCEPT ![t] = last]
-    /\ pc' = [pc EXCEPT ![t] = "read"]
+    /\ IF ReadOutsideLock
+       THEN /\ pc[t] = "idle" /\ calls[t] < K
+            /\ pc' = [pc EXCEPT ![t] = "clock"]
+            /\ UNCHANGED snap
+       ELSE /\ pc[t] = "locked"
+            /\ snap' = [snap EXCEPT ![t] = last]
+            /\ pc' = [pc EXCEPT ![t] = "read"]
     /\ act' = A("ReadClock", t, v)
     /\ UNCHANGED <<conf, lastWarn, warnings, lock, last, ret, calls, hist>>
 
@@ -122,12 +144,13 @@ TypeOK ==
     /\ conf \in Confs /\ warnings \in Nat
     /\ lock \in 0..N
     /\ last \in Nat
-    /\ pc \in [Threads -> {"idle", "locked", "read", "computed"}]
+    /\ pc \in [Threads -> {"idle", "clock", "locked", "read", "computed"}]
+    /\ ReadOutsideLock \in BOOLEAN
     /\ calls \in [Threads -> 0..K]
 
 Mutex ==
-    /\ \A t \in Threads : (pc[t] # "idle") <=> (lock = t)
-    /\ Cardinality({t \in Threads : pc[t] # "idle"}) <= 1
+    /\ \A t \in Threads : (pc[t] \notin {"idle", "clock"}) <=> (lock = t)
+    /\ Cardinality({t \in Threads : pc[t] \notin {"idle", "clock"}}) <= 1
 
 \* returned values strictly increase in lock order (hence are pairwise distinct, and increase per thread)
 StrictlyIncreasing == \A i, j \in 1..Len(hist) : i < j => hist[i].x < hist[j].x
@@ -150,7 +173,7 @@ Terminates == <>[]Finished
 \* vacuity witnesses (each must be violated = reachable)
 Witness_Drift == ~(\E i \in 1..Len(hist) : hist[i].x > hist[i].v + 1)
 Witness_BackwardsClock == ~(\E i, j \in 1..Len(hist) : i < j /\ hist[j].v < hist[i].v)
-Witness_Contention == ~(lock # 0 /\ \E t \in Threads : t # lock /\ pc[t] = "idle" /\ calls[t] < K /\ calls[t] > 0)
+Witness_Contention == ~(lock # 0 /\ \E t \in Threads : t # lock /\ WantsLock(t) /\ calls[t] > 0)
 Witness_AllDone == ~Finished
 Witness_Warned == ~(warnings >= 2)
 Witness_DriftTwiceSilently == ~(~conf.warn /\ \E i, j \in 1..Len(hist) : i < j /\ hist[i].x > hist[i].v /\ hist[j].x > hist[j].v)
